@@ -186,14 +186,29 @@ func RuleAddr(r *Report, p *Program) {
 				r.Bad("AD0", role+":"+m, "", "method not found")
 				continue
 			}
+			// the method reaches the role's parser: by a static call (possibly through an in-package helper) or by
+			// handing the parser, as a function value, to an in-package helper that calls it
 			calls := false
-			for _, b := range mf.Blocks {
-				for _, in := range b.Instrs {
-					if c, ok := in.(ssa.CallInstruction); ok && c.Common().StaticCallee() == fn {
-						calls = true
+			visitInstrs(mf, nil, 0, map[*ssa.Function]bool{}, func(in ssa.Instruction, env *cfEnv) {
+				c, ok := in.(ssa.CallInstruction)
+				if !ok {
+					return
+				}
+				if c.Common().StaticCallee() == fn {
+					calls = true
+				}
+				for _, a := range c.Common().Args {
+					v := a
+					if ct, ok := v.(*ssa.ChangeType); ok {
+						v = ct.X
+					}
+					if f, ok := v.(*ssa.Function); ok && f == fn {
+						if callee := c.Common().StaticCallee(); callee != nil && inModule(callee) {
+							calls = true
+						}
 					}
 				}
-			}
+			})
 			r.Check(calls, "AD0", role+":"+m, p.Pos(mf.Pos()), "calls "+rs.Parser, m+" does not go through "+rs.Parser)
 		}
 	}
